@@ -283,6 +283,10 @@ parse_url_char(enum state s, const char ch)
         return s_req_query_string_start;
       }
 
+      if (ch == '#') {
+        return s_req_fragment_start;
+      }
+
       if (ch == '@') {
         return s_req_server_with_at;
       }
